@@ -119,9 +119,13 @@ SplitAt(s, sep, i, cur) ==
   ELSE SplitAt(s, sep, i + 1, cur \o Ch(s, i))
 SplitStr(s, sep) == IF sep = "" THEN [k \in 1..Len(s) |-> Ch(s, k)] ELSE SplitAt(s, sep, 1, "")
 
+\* integers beyond TLC's range are carried as text: only the builtins that do not look inside an integer are
+\* decided for them, every other call with such an argument is left to the code (abstain)
+BigSafe == TypePreds \cup {"=", "list", "vector", "pr-str", "str"}
 Pure(name, a) ==
   LET n == Len(a) IN
-  CASE name \in TypePreds -> IF n = 1 THEN OV(BoolV(TypePred(name, a[1]))) ELSE OE
+  CASE (\E k \in 1..n : IsBig(a[k])) /\ name \notin BigSafe -> OX
+    [] name \in TypePreds -> IF n = 1 THEN OV(BoolV(TypePred(name, a[1]))) ELSE OE
     [] name \in Arith ->
          IF n # 2 \/ ~IsInt(a[1]) \/ ~IsInt(a[2]) THEN OE
          ELSE IF ~Small(a[1].i) \/ ~Small(a[2].i) THEN OX
